@@ -70,11 +70,15 @@ def letters(kind, d):
     raise ValueError(kind)
 
 
-def assignments(kind, d, n):
-    """Every assignment of the kind's alphabet to n particles (bool: every non-empty selection)."""
+def assignments(kind, d, n, dtype=None):
+    """Every assignment of the kind's alphabet to n particles (bool: every non-empty selection).  dtype: another storage type of
+    the same kind (complex64 for the complex kinds, int64 for the real ones - 0.5 is then stored as 0); the values stay exact."""
     al = letters(kind, d)
     dt = {"bool": bool, "float": np.float64, "complex": np.complex128, "vector": np.float64, "cvector": np.complex128,
           "tensor": np.float64}[kind]
+    if dtype:
+        dt = np.dtype(dtype)
+        al = np.array(al).astype(dt).tolist()
     for combo in itertools.product(range(len(al)), repeat=n):
         if kind == "bool" and not any(combo):
             continue
@@ -153,9 +157,15 @@ def gr_geometries(seed, tier, placements_filter=None, masks=True):
                         yield {"d": d, "cell": cell, "H": H.tolist(), "w": 0.25, "ppp": m, "placement": name, "pos": pts}
 
 
+ALT_DTYPE = {"float": "int64", "complex": "complex64", "vector": "int64", "cvector": "complex64", "tensor": "int64"}
+
+
 def gen_gr_kind(kind, tier, seed):
     for g in gr_geometries(seed, tier):
         yield dict(g, part="gr", kind=kind)
+        # the same kind in another storage type (the statement speaks of real / complex quantities, not of float64 / complex128)
+        if kind in ALT_DTYPE and g["placement"] in ("gen3", "gen4") and g["w"] == 0.25 and (tier == "thorough" or g["cell"] != "tri+"):
+            yield dict(g, part="gr", kind=kind, dtype=ALT_DTYPE[kind])
 
 
 def sq_placements(seed, d, L, tier):
@@ -183,6 +193,8 @@ def sq_geometries(seed, tier):
 def gen_sq_kind(kind, tier, seed):
     for g in sq_geometries(seed, tier):
         yield dict(g, part="sq", kind=kind)
+        if kind in ALT_DTYPE and g["placement"] == "gen3" and g["qlist"] in ("six", "neg"):
+            yield dict(g, part="sq", kind=kind, dtype=ALT_DTYPE[kind])
 
 
 # ------------------------------------------------------------------------------------ helpers
@@ -234,7 +246,9 @@ def run_gr_kind(case):
     populated = 0
     nonzero = False
     ncmp = 0
-    for combo, cond in assignments(kind, d, n):
+    if case.get("dtype"):
+        sig["dtype"] = case["dtype"]
+    for combo, cond in assignments(kind, d, n, case.get("dtype")):
         c0 = cond.copy()
         res = conditional_gr(snap, cond, conditiontype=ctype(kind), ppp=ppp, rdelta=w)
         ref = cond_gr_loops(pos, H, ppp, w, cond.tolist(), kind, pair_bins, shell_volumes)
@@ -447,7 +461,9 @@ def run_sq_kind(case):
     sig = gsig(case, kind=kind)
     qarr = np.array(qint, dtype=int)
     outs = []
-    for combo, cond in assignments(kind, d, n):
+    if case.get("dtype"):
+        sig["dtype"] = case["dtype"]
+    for combo, cond in assignments(kind, d, n, case.get("dtype")):
         c0 = cond.copy()
         per, ave = conditional_sq(snap, qarr, cond)
         ref, _ = cond_sq_loops(pos.tolist(), L, qint, cond.tolist(), kind)
